@@ -23,7 +23,7 @@ import tempfile
 
 import numpy as np
 
-from mc.core import Sub, ok, trivial, viol, HarnessError
+from mc.core import Sub, ok, trivial, viol, HarnessError, REPO
 from mc import alphabet as A
 from mc import impl
 from mc import tol
@@ -423,7 +423,7 @@ def fresh_reference(cls_name, kw, seed):
     """results of every event on a fresh trainer, computed in a pristine python process."""
     code = (
         "import sys, pickle, numpy as np\n"
-        "sys.path.insert(0, '/repo'); sys.path.insert(1, %r); sys.path.append(%r)\n"
+        "sys.path.insert(0, %r); sys.path.insert(1, %r); sys.path.append(%r)\n"
         "from mc.props import c20\n"
         "out = {}\n"
         "data = c20.event_data(%d, %r)\n"
@@ -434,7 +434,7 @@ def fresh_reference(cls_name, kw, seed):
         "    st, res = c20.do_event(tr, %r, ev, data)\n"
         "    out[ev] = (st, c20.result_arrays(res) if st == 'ok' else res)\n"
         "sys.stdout.buffer.write(pickle.dumps(out))\n"
-    ) % (HERE, os.path.join(HERE, '_vendor'), seed, cls_name, cls_name, kw, cls_name)
+    ) % (REPO, HERE, os.path.join(HERE, '_vendor'), seed, cls_name, cls_name, kw, cls_name)
     env = dict(os.environ, PYTHONWARNINGS='ignore')
     p = subprocess.run([sys.executable, '-c', code], capture_output=True, env=env, timeout=600)
     if p.returncode != 0:
@@ -728,7 +728,7 @@ def run_scan(key):
     findings = []
     n = 0
     for rel in SCAN_DIRS:
-        p = os.path.join('/repo', rel)
+        p = os.path.join(REPO, rel)
         files = [p] if p.endswith('.py') else [os.path.join(dp, f) for dp, _, fs in os.walk(p) for f in fs
                                                if f.endswith('.py')]
         for f in sorted(files):
